@@ -47,6 +47,15 @@ def gen_config(rng, tier, flavor="db"):
     }
     if space < 2:
         cfg["n_alleles"][0] = 2
+    if flavor == "db" and rng.random() < 0.04:
+        # tiny shapes on which the exact one-sweep kernel is extracted (see check_sweep_kernel)
+        cfg["ploidy"] = rng.choice([1, 2, 2, 3])
+        cfg["n_alleles"] = [2, 2]
+        cfg["n_haps"] = rng.choice([2, 3])
+        cfg["n_reads"] = rng.choice([0, 1, 2, 3])
+        cfg["sweep_kernel"] = True
+        cfg["dup_haplotype"] = False
+        return cfg
     if rng.random() < (0.015 if flavor != "trace" else 0.0):
         # rare large shapes: pools / high ploidy with many known haplotypes (index arithmetic, cache keys)
         cfg["ploidy"] = rng.choice([3, 5, 7, 8, 10, 12, 32])
@@ -379,6 +388,68 @@ class CallSim:
                           x=x, position=k, vector=vec, expected=want, inbreeding=self.F, freqs=self.fl)
             self.ctx.key("gibbs", len(x), tuple(self.cfg["n_alleles"]), nh, ref.allele_key(x), int(x[k]), self.F, self.cfg["freqs"])
         return out
+
+    def check_sweep_kernel(self):
+        """Tiny instances only: the exact one-sweep transition kernel of compound_step over unordered genotypes
+        is extracted by scripting every random outcome (scan order x allele draws) through the seams, and the
+        posterior must be stationary under it: sum_x pi(x) K(x, y) = pi(y).  Each single-copy move can be exact
+        while the COMPOSED sweep (scan order + final sort) is not, e.g. if the scan order depends on the state."""
+        import itertools
+        np = self.np
+        pl, nh = self.cfg["ploidy"], len(self.haps)
+        states = ref.all_genotypes(nh, pl)
+        orders = list(itertools.product(*[range(i + 1) for i in range(pl - 1, 0, -1)])) or [()]
+        lpi = [self.lord(x) + ref.ln_nperm_alleles(x) for x in states]
+        z = ref.log_sum_exp(lpi)
+        pi = {x: math.exp(l - z) for x, l in zip(states, lpi)}
+        st = 0 if self.cfg["step_type"] == "Gibbs" else 1
+        K = {x: {} for x in states}
+        with Seams() as seams:
+            self.install(seams)
+            self.in_probe += 1
+            try:
+                for x in states:
+                    for fy in orders:
+                        for ch in itertools.product(range(nh), repeat=pl):
+                            g = np.array(x, dtype=np.int64)
+                            prob = [1.0 / len(orders)]
+                            k = [0]
+
+                            def probe(vec, _ch=ch, _prob=prob, _k=k):
+                                i = _ch[_k[0]] if _k[0] < len(_ch) else 0
+                                _prob[0] *= float(vec[i])
+                                _k[0] += 1
+                                return i
+
+                            self.rng.probe = probe
+                            self.rng.int_script = list(fy)
+                            try:
+                                self.real["compound"](genotype_alleles=g, haplotypes=self.haps, reads=self.reads, read_counts=self.counts,
+                                                      inbreeding=self.F, frequencies=self.freqs, llk_cache=None, step_type=st)
+                            finally:
+                                self.rng.probe = None
+                                self.rng.int_script = None
+                            if k[0] != pl:
+                                raise HarnessError("compound_step made %d categorical draws for ploidy %d: the sweep kernel cannot be extracted" % (k[0], pl))
+                            y = tuple(sorted(int(v) for v in g))
+                            K[x][y] = K[x].get(y, 0.0) + prob[0]
+            finally:
+                self.in_probe -= 1
+        for x in states:
+            tot = sum(K[x].values())
+            if abs(tot - 1.0) > 1e-9:
+                self.viol("sweep_kernel_not_stochastic", "one-sweep kernel row of %r sums to %r" % (list(x), tot))
+        worst, at = 0.0, None
+        for y in states:
+            inflow = sum(pi[x] * K[x].get(y, 0.0) for x in states)
+            if abs(inflow - pi[y]) > worst:
+                worst, at = abs(inflow - pi[y]), y
+        self.ctx.counters.inc("sweep_kernels_extracted")
+        self.ctx.key("sweep_kernel", pl, nh, st, self.F, self.cfg["freqs"], self.cfg["data_seed"])
+        if worst > 1e-9:
+            self.viol("sweep_not_stationary",
+                      "the posterior is not stationary under one full compound step (scan + final sort): |sum_x pi(x)K(x,y) - pi(y)| = %.3g at y = %r" % (worst, list(at)),
+                      ploidy=pl, n_haps=nh, step_type=self.cfg["step_type"], inbreeding=self.F, freqs=self.fl)
 
     def check_gibbs_draw(self, vec, before, idx):
         """`vec` was used to redraw ONE copy of `before`: it must be the exact conditional given the other
